@@ -171,7 +171,7 @@ def walk (r : Reg) : MId → List Name → Res MId
 `names.end() - 1` undefined (outcome `crash`);
 patches/fix-model-empty-path.diff rejects it with an Error first. -/
 def getSemiterminal (r : Reg) (m : MId) (names : List Name) : Res MId :=
-  if names = [] then .crash else walk r m names.dropLast
+  if names = [] then .error else walk r m names.dropLast
 
 /-- `get_parameter(const std::vector<std::string> &)`. -/
 def getParameter (r : Reg) (m : MId) (names : List Name) : Res PId :=
